@@ -211,12 +211,18 @@ func GenMiner(t *rapid.T, srcIdx int, nonce uint64, salt string) Tx {
 	k := txgen.K(srcIdx)
 	ids := []string{"", common.ToHex(txgen.K(0).ID), common.ToHex(txgen.K(1).ID), common.ToHex(common.Sha256([]byte("idA")))}
 	id := rapid.SampledFrom(ids).Draw(t, "minerId")
+	// half of the transactions stay within "the source's own miner" (id derived from its key, account =
+	// source): only those histories reach authorised refunds and account changes
+	own := rapid.Bool().Draw(t, "ownMiner")
+	if own {
+		id = ""
+	}
 	switch rapid.SampledFrom([]string{"apply", "apply", "add", "refund", "change"}).Draw(t, "minerKind") {
 	case "apply":
 		typ := rapid.SampledFrom([]byte{0, 1}).Draw(t, "minerType")
 		stake := rapid.SampledFrom([]uint64{399, 400, 800, 2000}).Draw(t, "minerStake")
 		md := txgen.MinerData{Id: id, Type: typ, Stake: stake, PublicKey: "0x0102", VrfPublicKey: []byte{3, 4}}
-		if rapid.Bool().Draw(t, "otherAccount") {
+		if !own && rapid.Bool().Draw(t, "otherAccount") {
 			md.Account = Addr(rapid.IntRange(0, NKeys-1).Draw(t, "minerAccount"))
 		}
 		return Tx{Tx: txgen.MinerApply(k, md, nonce, salt), Kind: "miner_apply", Desc: fmt.Sprintf("apply(K%d,type%d,stake%d)", srcIdx, typ, stake)}
@@ -226,13 +232,22 @@ func GenMiner(t *rapid.T, srcIdx int, nonce uint64, salt string) Tx {
 		if id == "" {
 			id = common.ToHex(k.ID)
 		}
-		return Tx{Tx: txgen.MinerRefund(k, id, rapid.SampledFrom([]string{"1", "100", "400", "18446744073709551615", "x"}).Draw(t, "refundAmt"), nonce, salt), Kind: "miner_refund", Desc: fmt.Sprintf("refund(K%d)", srcIdx)}
+		return Tx{Tx: txgen.MinerRefund(k, id, rapid.SampledFrom([]string{"1", "100", "400", "401", "1600", "18446744073709551615", "x"}).Draw(t, "refundAmt"), nonce, salt), Kind: "miner_refund", Desc: fmt.Sprintf("refund(K%d)", srcIdx)}
 	default:
 		if id == "" {
 			id = common.ToHex(k.ID)
 		}
 		return Tx{Tx: txgen.MinerChangeAccount(k, id, Addr(rapid.IntRange(0, NKeys-1).Draw(t, "newAccount")), nonce, salt), Kind: "miner_change", Desc: fmt.Sprintf("change(K%d)", srcIdx)}
 	}
+}
+
+// OwnApply makes source K(srcIdx) apply for its own miner (id derived from its key, account = source).
+func OwnApply(t *rapid.T, srcIdx int, nonce uint64, salt string) Tx {
+	k := txgen.K(srcIdx)
+	typ := rapid.SampledFrom([]byte{0, 1}).Draw(t, "ownType")
+	stake := rapid.SampledFrom([]uint64{400, 401, 800, 2000}).Draw(t, "ownStake")
+	md := txgen.MinerData{Type: typ, Stake: stake, PublicKey: "0x0102", VrfPublicKey: []byte{3, 4}}
+	return Tx{Tx: txgen.MinerApply(k, md, nonce, salt), Kind: "miner_apply", Desc: fmt.Sprintf("apply(K%d,type%d,stake%d)", srcIdx, typ, stake)}
 }
 
 var gasLimits = []string{"", "0", "21000", "630000", "1000000", "30000000", "900000000", "99999999999"}
